@@ -50,10 +50,60 @@ type c14Case struct {
 	framing string // cl | stream
 	sizes   []int
 
+	// status dimension: 0 = 200 (206 + Content-Range when partial and the request carries Range);
+	// 204 / 304 are bodiless whatever the header says
+	status  int
+	partial bool
+	ifRange string
+
+	// attempt sequences (lane resend): the first preCount requests of the case are answered with
+	// preStatus (307 back to the same URL, or 503) instead of the response proper
+	preStatus, preCount int
+
+	// lane close_e2e: the origin sends the first half of the wire, then waits until the request is
+	// cancelled from the client's side (connection closed / stream reset) and reports on released
+	slow     bool
+	released chan string
+
 	// filled by the origin
 	mu     sync.Mutex
 	seen   bool
 	seenAE []string
+	aeLog  []string // Accept-Encoding of every request seen for the case ("none", or values joined by |)
+	served int
+}
+
+// bodiless: a status that never has a body (RFC 9110); the origin sends none and no Content-Length.
+func (c *c14Case) bodiless() bool { return c.status == 204 || c.status == 304 }
+
+func (c *c14Case) wantStatus(hasRange bool) int {
+	switch {
+	case c.status != 0:
+		return c.status
+	case c.partial && hasRange:
+		return 206
+	}
+	return 200
+}
+
+// c14JoinAE renders the Accept-Encoding values one request carried.
+func c14JoinAE(vs []string) string {
+	if len(vs) == 0 {
+		return "none"
+	}
+	return strings.Join(vs, "|")
+}
+
+// note records what a request for the case carried; it reports whether the request is to be
+// answered with the case's pre-status instead of the response proper.
+func (c *c14Case) note(ae []string) (pre bool) {
+	c.mu.Lock()
+	defer c.mu.Unlock()
+	c.seen = true
+	c.seenAE = append([]string(nil), ae...)
+	c.aeLog = append(c.aeLog, c14JoinAE(ae))
+	c.served++
+	return c.served <= c.preCount
 }
 
 type c14Origin struct {
@@ -75,24 +125,48 @@ func (o *c14Origin) ServeHTTP(w http.ResponseWriter, r *http.Request) {
 		http.Error(w, "no such case", 500)
 		return
 	}
-	c.mu.Lock()
-	c.seen = true
-	c.seenAE = append([]string(nil), r.Header.Values("Accept-Encoding")...)
-	c.mu.Unlock()
+	if c.note(r.Header.Values("Accept-Encoding")) {
+		if c.preStatus/100 == 3 {
+			w.Header().Set("Location", "/")
+		}
+		w.Header().Set("Content-Length", "0")
+		w.WriteHeader(c.preStatus)
+		return
+	}
 	h := w.Header()
 	for _, v := range c.ce {
 		h.Add("Content-Encoding", v)
 	}
 	h.Set("Content-Type", c.ctype)
 	h.Set("X-Keep", "k")
+	if c.bodiless() {
+		w.WriteHeader(c.status)
+		return
+	}
 	if c.framing == "cl" {
 		h.Set("Content-Length", strconv.Itoa(len(c.wire)))
 	}
-	w.WriteHeader(200)
+	if c.wantStatus(r.Header.Get("Range") != "") == 206 {
+		h.Set("Content-Range", fmt.Sprintf("bytes 0-%d/%d", len(c.wire)-1, len(c.wire)+1000))
+	}
+	w.WriteHeader(c.wantStatus(r.Header.Get("Range") != ""))
 	if c.framing == "stream" {
 		if f, ok := w.(http.Flusher); ok {
 			f.Flush()
 		}
+	}
+	if c.slow {
+		w.Write(c.wire[:len(c.wire)/2])
+		if f, ok := w.(http.Flusher); ok {
+			f.Flush()
+		}
+		select {
+		case <-r.Context().Done():
+			c.released <- "released"
+		case <-time.After(c14ReleaseWait):
+			c.released <- "held"
+		}
+		return
 	}
 	if r.Method != "HEAD" {
 		body := c.wire
@@ -117,6 +191,10 @@ func (o *c14Origin) ServeHTTP(w http.ResponseWriter, r *http.Request) {
 		}
 	}
 }
+
+// c14ReleaseWait: how long the origin of lane close_e2e waits for the client to let go of an
+// exchange whose body was closed (normally milliseconds).
+const c14ReleaseWait = 3 * time.Second
 
 // ---------------------------------------------------------------------------- origins
 
@@ -246,6 +324,7 @@ func (e *c14Env) client(proto string, dc, auto bool) *Client {
 // ---------------------------------------------------------------------------- running a case
 
 type c14Obs struct {
+	status    int
 	rtErr     string
 	ae        string   // Accept-Encoding the origin saw ("none", or values joined by |)
 	hdr       []string // tracked response header fields k,v,k,v…
@@ -349,6 +428,9 @@ func (e *c14Env) run(c *c14Case) (o c14Obs) {
 	if c.rng != "" {
 		rq.SetHeader("Range", c.rng)
 	}
+	if c.ifRange != "" {
+		rq.SetHeader("If-Range", c.ifRange)
+	}
 	var resp *Response
 	var err error
 	if p, bad := verifh.Safely(func() { resp, err = rq.Send(c.method, e.base[c.proto]+"/") }); bad {
@@ -359,19 +441,22 @@ func (e *c14Env) run(c *c14Case) (o c14Obs) {
 		o.rtErr = err.Error()
 		return
 	}
+	c14Observe(c, resp.Response, &o)
+	return
+}
+
+// c14Observe reads what the caller can see of a delivered response (and what the origin saw of
+// the request that provoked it) into o.
+func c14Observe(c *c14Case, hr *http.Response, o *c14Obs) {
 	c.mu.Lock()
-	if len(c.seenAE) == 0 {
-		o.ae = "none"
-	} else {
-		o.ae = strings.Join(c.seenAE, "|")
-	}
+	o.ae = c14JoinAE(c.seenAE)
 	c.mu.Unlock()
-	hr := resp.Response
 	for _, k := range c14Tracked {
 		for _, v := range hr.Header[k] {
 			o.hdr = append(o.hdr, k, v)
 		}
 	}
+	o.status = hr.StatusCode
 	o.n = hr.ContentLength
 	o.unc = hr.Uncompressed
 	o.proto = hr.ProtoMajor
@@ -395,7 +480,6 @@ func (e *c14Env) run(c *c14Case) (o c14Obs) {
 	}); bad {
 		o.panicText = "Body.Read: " + p
 	}
-	return
 }
 
 // corrupted: the encoded stream itself was damaged (bit flip, truncation with matching framing).
@@ -441,13 +525,21 @@ func (c *c14Case) sentHeader() []string {
 	for _, v := range c.ce {
 		h = append(h, "Content-Encoding", v)
 	}
-	if c.framing == "cl" {
+	if c.framing == "cl" && !c.bodiless() {
 		h = append(h, "Content-Length", strconv.Itoa(len(c.wire)))
+	}
+	if c.bodiless() && c.proto == "h3" {
+		h = append(h, "Content-Length", "0") // quic-go's http3 server declares the empty body
 	}
 	return append(h, "X-Keep", "k")
 }
 
+// declaredLength: Response.ContentLength as the framing layer reports it (before any decoding).
 func (c *c14Case) declaredLength() int64 {
+	if c.bodiless() {
+		// HTTP/1.1 (fixLength), HTTP/2 (END_STREAM on HEADERS), HTTP/3 (Content-Length: 0 from the origin)
+		return 0
+	}
 	if c.framing == "cl" {
 		return int64(len(c.wire))
 	}
@@ -456,7 +548,7 @@ func (c *c14Case) declaredLength() int64 {
 
 // hasBody: does the stack install a body reader (model input; HTTP/3 ignores it)?
 func (c *c14Case) hasBody() bool {
-	return c.method != "HEAD" && (c.framing == "stream" || len(c.wire) > 0)
+	return c.method != "HEAD" && !c.bodiless() && (c.framing == "stream" || len(c.wire) > 0)
 }
 
 func c14b(b bool) string {
@@ -487,7 +579,7 @@ func (c *c14Case) refDigest(alg string) string {
 
 // wireBody: what the framing layer delivers (nothing for HEAD).
 func (c *c14Case) wireBody() []byte {
-	if c.method == "HEAD" {
+	if c.method == "HEAD" || c.bodiless() {
 		return nil
 	}
 	if c.stream == "short" {
@@ -561,7 +653,10 @@ func (c *c14Case) oracle(o c14Obs) (ok bool, why string) {
 		ce = c.ce[0]
 	}
 	decode := c.method != "HEAD" && ((transportAsked && strings.EqualFold(ce, "gzip")) || (c.auto && c14Supported(ce)))
-	if c.stream == "emptywire" {
+	if want := c.wantStatus(c.rng != ""); o.status != want {
+		return false, fmt.Sprintf("status %d, sent %d", o.status, want)
+	}
+	if c.stream == "emptywire" || c.bodiless() {
 		return true, "" // a zero-length body is not an encoded payload: only model correspondence
 	}
 	hdr := strings.Join(o.hdr, "\x00")
@@ -638,6 +733,7 @@ var c14Cfgs = []c14Cfg{
 	{false, true, "gzip, deflate, br, zstd"}, // caller-set + AutoDecompress (the browser-like setup)
 	{true, true, ""},                          // DisableCompression + AutoDecompress
 	{false, false, "gzip"},                    // caller asks for gzip itself: still untouched
+	{false, false, "gzip;q=1.0, identity;q=0.5, *;q=0"}, // q-values: still the caller's own negotiation
 }
 
 type c14Enc struct {
@@ -695,6 +791,32 @@ func c14Matrix(r *rand.Rand, proto string) []*c14Case {
 					method: m.method, rng: m.rng, ce: enc.ce, ctype: "application/octet-stream", payload: p, wire: wire,
 					stream: "valid", alg: alg, framing: "cl", sizes: verifc14.Sizes(r),
 				})
+			}
+		}
+	}
+	// status dimension: 206 + Content-Range to a Range request (with and without If-Range), and the
+	// bodiless 204 / 304 carrying a Content-Encoding all the same
+	for ci, cfg := range c14Cfgs {
+		for _, enc := range []c14Enc{c14Encs[0], c14Encs[2], c14Encs[6], c14Encs[8]} {
+			for _, st := range []int{206, 2060, 204, 304} {
+				p := verifc14.Payload(r, 1+r.Intn(3))
+				wire, alg := c14Encode(enc, p)
+				c := &c14Case{
+					id: fmt.Sprintf("%s-st-%d-%d-%s", proto, ci, st, enc.name), proto: proto, dc: cfg.dc, auto: cfg.auto, ae: cfg.ae,
+					method: "GET", ce: enc.ce, ctype: "application/octet-stream", payload: p, wire: wire,
+					stream: "valid", alg: alg, framing: "cl", sizes: verifc14.Sizes(r),
+				}
+				if st == 2060 {
+					c.status = 206 // a 206 the request did not ask for: the status must not matter to the decision
+				} else if st == 206 {
+					c.partial, c.rng = true, "bytes=0-"
+					if r.Intn(2) == 0 {
+						c.ifRange = "\"etag-1\""
+					}
+				} else {
+					c.status = st
+				}
+				out = append(out, c)
 			}
 		}
 	}
@@ -863,27 +985,9 @@ func c14RunLane(t *testing.T, s *verifh.Session, e *c14Env, cases []*c14Case, ne
 			count("panic")
 			continue
 		}
-		if c.stream == "short" && c.proto == "h3" && o.rtErr == "" {
-			// The HTTP/3 body reader (internal/http3/body.go, as upstream quic-go) only checks for
-			// MORE data than declared; a stream that ends early is a clean EOF on that stack,
-			// decoded or not - a framing matter (C03), not a decoding one. Judged leniently here:
-			// an error, or exactly what the reference decoder makes of the bytes received.
-			alg := ""
-			if o.unc {
-				alg = c.alg
-			}
-			lenient := strings.HasPrefix(o.term, "err")
-			if !lenient {
-				if alg == "" {
-					lenient = bytes.Equal(o.data, c.wireBody())
-				} else {
-					_, out, term := verifc14.Ref(alg, c.wireBody(), io.EOF)
-					lenient = bytes.Equal(o.data, out) && o.term == term
-				}
-			}
-			s.Observe(c.id, lenient, class, true, human, o.answer(c))
-			continue
-		}
+		// (HTTP/3 used to accept a message shorter than its Content-Length as a clean EOF; since
+		// "fix: http3: a response stream that ends early is an error" the three stacks agree and the
+		// short cases are judged alike on all of them)
 		if o.rtErr != "" && strings.Contains(o.rtErr, "infra:") {
 			t.Fatalf("infra: %s", o.rtErr)
 		}
@@ -894,6 +998,9 @@ func c14RunLane(t *testing.T, s *verifh.Session, e *c14Env, cases []*c14Case, ne
 			count("HEAD")
 		} else if c.rng != "" {
 			count("Range")
+		}
+		if o.status != 200 && o.rtErr == "" {
+			count(fmt.Sprintf("status:%d", o.status))
 		}
 		if o.unc {
 			count("decoded")
@@ -924,7 +1031,7 @@ func c14RunLane(t *testing.T, s *verifh.Session, e *c14Env, cases []*c14Case, ne
 
 const c14Rule = "in-process origin; FULL matrix {default, DisableCompression, AutoDecompress, caller Accept-Encoding, caller AE+AutoDecompress, DisableCompression+AutoDecompress, caller AE gzip} x {GET, HEAD, Range GET} x Content-Encoding {gzip, deflate, br, zstd, identity, unknown, none, empty value, GZIP, Gzip, Br, ZSTD, x-gzip, 'gzip, br', 'br,gzip', two header lines, 'gzip;q=1'} with payloads {empty,tiny,text,random}; plus random decoded cases: payload up to multi-MiB, multi-member gzip, Content-Length vs streamed framing, streams truncated / bit-flipped (first bytes, last bytes, anywhere), zero-length body, multi-member gzip / multi-frame zstd messages that end BEFORE the declared Content-Length at a member/frame boundary, just after it, or anywhere (decoded under every configuration and undecoded; oracle: read error, never a silently shortened body), 1-4 cycling Read sizes from {1..65536}. Observed: Accept-Encoding at the origin, Response.Header (Content-Encoding, Content-Length, X-Keep), ContentLength, Uncompressed, body bytes + final read error. Compared with the Lean model (c14x) and judged by an independent Go oracle of the property text; non-trivial = a Content-Encoding was sent or the body was decoded"
 
-var c14Need = []string{"short:boundary", "short:anywhere", "short-decoded", "decoded", "untouched", "HEAD", "Range", "decoded:gzip", "decoded:deflate", "decoded:br", "decoded:zstd", "stream:trunc", "stream:flip", "stream:emptywire", "framing:stream", "decoded-error", "multi-MiB", "multi-member"}
+var c14Need = []string{"status:206", "status:204", "status:304", "short:boundary", "short:anywhere", "short-decoded", "decoded", "untouched", "HEAD", "Range", "decoded:gzip", "decoded:deflate", "decoded:br", "decoded:zstd", "stream:trunc", "stream:flip", "stream:emptywire", "framing:stream", "decoded-error", "multi-MiB", "multi-member"}
 
 // TestVerif_C14_e2e_h1: HTTP/1.1.
 func TestVerif_C14_e2e_h1(t *testing.T) {
@@ -1020,15 +1127,9 @@ func TestVerif_C14_cross(t *testing.T) {
 		sameReads := again == answers[idx]
 		// a zero-length body with a Content-Encoding: HTTP/3 has no bodiless exit (documented)
 		if b.stream == "short" {
-			// HTTP/3 has no check for a message shorter than declared (see c14RunLane): the
-			// two stacks that have one must agree
-			same = answers[0] == answers[1]
-			if idx == 2 {
-				sameReads = true
-			}
 			s.Count("short")
 		}
-		if b.stream == "emptywire" || (len(b.wire) == 0 && len(b.ce) > 0 && b.method != "HEAD") {
+		if b.stream == "emptywire" || (len(b.wire) == 0 && len(b.ce) > 0 && b.method != "HEAD") || b.bodiless() {
 			same = answers[0] == answers[1]
 			s.Count("emptywire")
 		}
